@@ -506,7 +506,9 @@ func (e *Engine) jump(st *State, fr *Frame, to *ssa.BasicBlock) {
 
 func (e *Engine) doReturn(st *State, th *Thread, res Value) {
 	fr := th.top()
-	_ = fr
+	if fr.wrap != nil {
+		res = fr.wrap(st, res)
+	}
 	th.frames = th.frames[:len(th.frames)-1]
 	e.deliverResult(st, th, res)
 }
@@ -921,7 +923,14 @@ func (e *Engine) indexAddr(st *State, fr *Frame, in *ssa.IndexAddr) Value {
 		}
 		n := in.X.Type().Underlying().(*types.Pointer).Elem().Underlying().(*types.Array).Len()
 		e.boundsCheck(st, idx, e.i64(uint64(n)), "array")
-		return v.extend(e.concInt(st, idx))
+		if idx.IsConst() {
+			return v.extend(int(idx.val))
+		}
+		if c, ok := st.conc[idx.id]; ok {
+			return v.extend(int(c))
+		}
+		v = e.concPtr(st, v)
+		return Ptr{obj: v.obj, path: v.path, sym: idx}
 	}
 	panic(engErr("indexAddr on %T", x))
 }
